@@ -15,6 +15,135 @@ def SELECT(name):
     return 'json-safe' not in name
 
 
+def formats_agree_bounded(seed):
+    """the sentence of the property end to end, in process: the real
+    run_proofreader_options (with a stand-in for run_languagetool that flags
+    one given word of whatever plain text it receives) and the real text /
+    JSON / XML / XML-bytes reports on a few documents with unique words
+    (several lines, non-ASCII, a footnote, a comment inside a word group,
+    multi-language mode with \\foreignlanguage): every flagged word is
+    reported at the 1-based line and column where that word stands in the
+    LaTeX text, identically in all formats"""
+    import io
+    import json as _json
+    import re
+    import types
+    from pyvc import replay as _r
+    pr = _r.real_module('yalafi.shell.proofreader')
+    gt = _r.real_module('yalafi.shell.gentext')
+    gj = _r.real_module('yalafi.shell.genjson')
+    gx = _r.real_module('yalafi.shell.genxml')
+    ut = _r.real_module('yalafi.shell.utils')
+    ch = _r.real_module('yalafi.shell.checks')
+
+    def jget(dic, item, typ):
+        if not isinstance(dic, dict) or not isinstance(dic.get(item), typ):
+            raise SystemExit(1)
+        return dic[item]
+    docs = [
+        ('alpha beta\ngamma delta.\n', False),
+        ('Gr\u00f6\u00dfe alpha\n  beta\\footnote{gamma delta} epsilon.\n', False),
+        ('alpha % comment\n   beta \\textbf{gamma}\n\ndelta\n', False),
+        ('\\usepackage[german,english]{babel}\nalpha beta '
+         '\\foreignlanguage{german}{gamma delta epsilon zeta eta} theta.\n'
+         '\n\\selectlanguage{german}\niota kappa.\n', True),
+    ]
+    n, fails = 0, []
+    for tex, ml in docs:
+        words = sorted(set(re.findall(r'[a-z]{4,}|Gr\u00f6\u00dfe', tex)) -
+                       {'usepackage', 'german', 'english', 'babel',
+                        'foreignlanguage', 'selectlanguage', 'footnote',
+                        'textbf', 'comment'})
+        for w in words:
+            cmd = types.SimpleNamespace(
+                plain_input=False, list_unknown=False, multi_language=ml,
+                ml_continue_threshold=3, ml_rule_threshold=2, ml_disable='',
+                ml_disablecategories='', textgears=None, replace=None,
+                define='', extract=None, simple_equations=False,
+                documentclass='', packages='*' if not ml else 'babel',
+                no_specials=False, single_letters=None,
+                equation_punctuation=None, context=20, server=None)
+            for m_ in (pr, gt, gj, gx, ut, ch):
+                m_.cmdline = cmd
+                m_.json_get = jget
+            pr.equation_replacements = pr.equation_replacements_inline = \
+                pr.equation_replacements_display = 'X-X-X'
+            seen = []
+
+            def fake_lt(plain, lang, *a, w=w):
+                seen.append(lang)
+                k = plain.find(w)
+                if k < 0:
+                    return []
+                return [{'offset': k, 'length': len(w), 'message': 'm',
+                         'rule': {'id': 'R', 'category': {'name': 'c'}},
+                         'replacements': [],
+                         'context': {'text': w, 'offset': 0,
+                                     'length': len(w)}}]
+            pr.run_languagetool = fake_lt
+            n += 1
+            try:
+                t, plain, charmap, matches = pr.run_proofreader_options(
+                    tex, 'en-GB', '', '', '', '', [])
+            except BaseException as e:      # noqa
+                fails.append({'tex': tex, 'word': w, 'why': repr(e)})
+                continue
+            k = tex.find(w)
+            want_lin = tex.count('\n', 0, k) + 1
+            want_col = k - (tex.rfind('\n', 0, k) + 1) + 1
+            why = None
+            if len(matches) != 1:
+                why = '%d matches for one flagged word' % len(matches)
+            else:
+                import copy
+                o = io.StringIO()
+                gt.output_text_report(tex, plain, charmap,
+                                      copy.deepcopy(matches), 'f', o)
+                mt = re.search(r'Line (\d+), column (\d+)', o.getvalue())
+                got_t = (int(mt.group(1)), int(mt.group(2))) if mt else None
+                o = io.StringIO()
+                gj.output_json(tex, plain, charmap, copy.deepcopy(matches),
+                               jget, 'f', o)
+                pj = _json.loads(o.getvalue())['matches'][0]['priv']
+                got_j = (pj['fromy'] + 1, pj['fromx'] + 1)
+                end_j = (pj['toy'] + 1, pj['tox'])
+                o = io.StringIO()
+                gx.output_xml_report(tex, plain, charmap,
+                                     copy.deepcopy(matches), False, 'f', o)
+                ax = dict(re.findall(r'(fromy|fromx|toy|tox)="(\d+)"',
+                                     o.getvalue()))
+                got_x = (int(ax['fromy']) + 1, int(ax['fromx']) + 1)
+                o = io.StringIO()
+                gx.output_xml_report(tex, plain, charmap,
+                                     copy.deepcopy(matches), True, 'f', o)
+                ab = dict(re.findall(r'(fromy|fromx|toy|tox)="(\d+)"',
+                                     o.getvalue()))
+                ls = tex.rfind('\n', 0, k) + 1
+                want_b = (want_lin, len(tex[ls:k].encode()) + 1)
+                got_b = (int(ab['fromy']) + 1, int(ab['fromx']) + 1)
+                want = (want_lin, want_col)
+                want_end = (want_lin, want_col + len(w) - 1)
+                if got_t != want or got_j != want or got_x != want or \
+                        end_j != want_end or got_b != want_b:
+                    why = 'word at line/column %r: text %r json %r..%r ' \
+                        'xml %r xml-b %r (expected %r)' % (
+                            want, got_t, got_j, end_j, got_x, got_b, want_b)
+            if why:
+                fails.append({'tex': tex, 'word': w, 'why': why})
+                if len(fails) >= 3:
+                    break
+        if len(fails) >= 3:
+            break
+    return {'name': 'flagged-word-is-reported-in-place-in-all-formats',
+            'bounded': True,
+            'bound': '4 documents (one in multi-language mode), every word '
+                     'of each flagged in turn, formats text / json / xml / '
+                     'xml-b',
+            'evaluations': n, 'failures': fails[:3]}
+
+
+QUICK_BOUNDED = [formats_agree_bounded]
+
 TRUSTED = [
     'tex2txt.tex2txt as seen from the shell: text and map of equal length, 1 <= |p| <= len(tex) (proved in C01 for the '
     'single-language mode; multi-language parts by the lemmas of C12 only)',
